@@ -78,7 +78,7 @@ func identOf(t *Term) keyIdent {
 		return k
 	}
 	if b, isB := typeOfTerm(t).(*types.Basic); isB && b.Info()&types.IsString != 0 {
-		if _, leaf := eventComponent(t); !leaf || true {
+		{
 			ps, why := stringPieces(t, k.comps)
 			if why == "" && !(len(ps) == 1 && ps[0].kind == 's') {
 				k.pieces = ps
